@@ -40,7 +40,7 @@ def _case():
                          'flip': draw(st.booleans())})
         return {'rows': rows, 'idx': draw(st.integers(0, n-1)),
                 'g': draw(gen.unit_quaternions(allow_denormal=False)), 'h': draw(gen.unit_quaternions(allow_denormal=False)),
-                'c': draw(gen.unit_quaternions(allow_denormal=False)), 'scale': draw(gen.log_uniform(-2, 2))}
+                'c': draw(gen.unit_quaternions(allow_denormal=False)), 'scale': draw(gen.scales(-2, 2))}
     return build()
 
 
